@@ -59,9 +59,18 @@ def record_sanitizer(markup, typ):
         def handle_decl(self, text):
             self._wrap("decl", (text,), lambda: S.HTMLSanitizer.handle_decl(self, text))
 
+        def unknown_decl(self, data):
+            self._wrap("mdecl", (data,), lambda: S.HTMLSanitizer.unknown_decl(self, data))
+
     p = Rec("utf-8", typ)
     src = markup.replace("<![CDATA[", "&lt;![CDATA[")
     p.feed(src)
+    # every piece of the output must have been emitted inside one of the recorded (= modelled) callbacks: a handler the model does not
+    # know about (e.g. one for marked sections) shows up here as an event of its own, which the model cannot match
+    extra = len(p.pieces) - sum(e["npieces"] for e in events)
+    if extra > 0:
+        events.append({"kind": "unrecorded-callback", "args": ("",), "pieces": "<%d pieces emitted outside the recorded callbacks>" % extra, "npieces": extra,
+                       "state": (p.unacceptablestack, p.mathmlOK, p.svgOK)})
     return events, p.output()
 
 
@@ -146,8 +155,14 @@ def record_resolver(markup, base, typ):
         def handle_decl(self, text):
             self._wrap("decl", (text,), lambda: U.RelativeURIResolver.handle_decl(self, text))
 
+        def unknown_decl(self, data):
+            self._wrap("mdecl", (data,), lambda: U.RelativeURIResolver.unknown_decl(self, data))
+
     p = Rec(base, "utf-8", typ)
     p.feed(markup)
+    extra = len(p.pieces) - sum(e["npieces"] for e in events)
+    if extra > 0:
+        events.append({"kind": "unrecorded-callback", "args": ("",), "pieces": "<%d pieces emitted outside the recorded callbacks>" % extra, "npieces": extra})
     return events, p.output()
 
 
